@@ -2,6 +2,7 @@
 package c18
 
 import (
+	"bufio"
 	"encoding/base64"
 	"time"
 	"syscall"
@@ -720,6 +721,68 @@ func runWrite(c *h.Ctx, cs Case, b *built, api string) {
 				y, e2 := entriesSorted(cs.Art, b.bytes)
 				if e1 != nil || e2 != nil || fmt.Sprint(x) != fmt.Sprint(y) || len(sink) != len(b.bytes) {
 					c.Fail("C18/write/stream-differs-from-buffer/"+api, "stream writer and buffered writer disagree on the container's entries (%v / %v)", e1, e2)
+				}
+			}
+		}
+		// the same stream write into sinks of other dynamic types and with other histories: an empty *bytes.Buffer, one
+		// that already holds a frame header (or a previous token), a bufio.Writer, a strings.Builder, io.Discard behind
+		// a tee. The call writes the same bytes (for deterministic artefacts) and reports the CID of the bytes IT wrote.
+		for _, sk := range []string{"bytes.Buffer", "bytes.Buffer/used", "bytes.Buffer/used-by-token", "bufio", "strings.Builder", "multi"} {
+			var w io.Writer
+			var written func() []byte
+			switch sk {
+			case "bytes.Buffer":
+				bb := &bytes.Buffer{}
+				w, written = bb, bb.Bytes
+			case "bytes.Buffer/used", "bytes.Buffer/used-by-token":
+				prefix := []byte("frame-header:0042:")
+				if sk == "bytes.Buffer/used-by-token" {
+					prefix = append([]byte{}, sink...)
+				}
+				bb := bytes.NewBuffer(append([]byte{}, prefix...))
+				np := len(prefix)
+				w, written = bb, func() []byte { return bb.Bytes()[np:] }
+			case "bufio":
+				bb := &bytes.Buffer{}
+				bw := bufio.NewWriterSize(bb, 64)
+				w, written = bw, func() []byte { _ = bw.Flush(); return bb.Bytes() }
+			case "strings.Builder":
+				sb := &strings.Builder{}
+				w, written = sb, func() []byte { return []byte(sb.String()) }
+			default:
+				b1, b2 := &bytes.Buffer{}, &bytes.Buffer{}
+				w, written = io.MultiWriter(b1, b2), b1.Bytes
+			}
+			var id2 cid.Cid
+			var err2 error
+			if pn, pv, _ := h.Try(func() { id2, err2 = writeStream(cs, b, w) }); pn {
+				c.Fail("C18/write/panic/"+api, "stream writer panicked on a %s sink: %v", sk, pv)
+				return
+			}
+			if err2 != nil {
+				c.Fail("C18/write/clean-run-fails/"+api, "stream writer fails on a %s sink without any fault: %v", sk, err2)
+				return
+			}
+			out := written()
+			if cs.Art == "token" {
+				hasCID := true
+				if cs.API > 0 {
+					es := streamEncs(cs)
+					hasCID = es[(cs.API-1)%len(es)].HasCID
+				}
+				if hasCID && !bytes.Equal(id2.Bytes(), ctr.RefCID(out).Bytes()) {
+					c.Fail("C18/write/cid-not-of-written-bytes/"+sk, "stream writer into a %s sink returned %s; the %d bytes this call wrote have CID %s", sk, id2, len(out), ctr.RefCID(out))
+					return
+				}
+			}
+			if b.det && !bytes.Equal(out, b.bytes) {
+				c.Fail("C18/write/stream-differs-from-buffer/"+api, "stream writer into a %s sink produced other bytes than the buffered call", sk)
+				return
+			}
+			if !b.det {
+				if o := readBuffered(cs, b.kind, out); o.err {
+					c.Fail("C18/write/stream-output-unreadable/"+api, "bytes written into a %s sink cannot be decoded", sk)
+					return
 				}
 			}
 		}
